@@ -223,4 +223,29 @@ class CoordBuilder(Part):
         return {"nontrivial": T.mixed_nesting(text_ast) > 0, "classes": ["kind=" + case["kind"]]}
 
 
-PARTS = [Programs(), Shipped(), CoordBuilder()]
+class MetricsPrograms(Part):
+    name = "metrics-programs"
+    rule = ("D_metrics specifications (constructed architecture/bindings/format) in metrics mode: tree vs parsed text, incl. the "
+            "dump's time formulas ((a + b) / rate, max(...), sums of block times). Non-trivial as for programs.")
+
+    def budget(self, tier):
+        return {"quick": dict(examples=200, shards=3, seconds=80),
+                "thorough": dict(examples=2500, shards=8, seconds=900)}[tier]
+
+    def strategy(self, tier):
+        from .. import gen_metrics
+        return gen_metrics.case_metrics(n_min=1, n_max=3, with_inputs=False)
+
+    def describe(self, case):
+        return {"yaml": S.to_yaml(case["spec"]), "mode": "metrics"}
+
+    def run_case(self, case):
+        if case.get("mapping_rejected"):
+            raise Skip("rejected_by_compiler", "mapping")
+        spec = case["spec"]
+        hf = oracle.compile_or_skip(spec, metrics=True, crash_is_violation=False)
+        mixed = compare(hf, S.to_yaml(spec))
+        return {"nontrivial": mixed > 0, "classes": ["family=metrics", "mode=metrics"]}
+
+
+PARTS = [Programs(), Shipped(), CoordBuilder(), MetricsPrograms()]
